@@ -99,16 +99,25 @@ type world struct {
 	known   map[string]bool   // liveness already decided
 	pLive   float64           // probability that an untouched key is live in the base
 	nextOff uint64
+	wide    bool // offsets spread over the whole 40 bit range an entry can hold (a 1 TB database), not 1, 2, 3, ...
 	keyfn   func(int) string
 	univ    int
+}
+
+// newOff returns a fresh, non-zero offset; in wide worlds a bijective scramble of the counter over 40 bits
+func (w *world) newOff() uint64 {
+	w.nextOff++
+	if w.wide {
+		return (w.nextOff * 0x9e3779b97f) & 0xffffffffff
+	}
+	return w.nextOff
 }
 
 func (w *world) isLive(k string) (uint64, bool) {
 	if !w.known[k] {
 		w.known[k] = true
 		if w.r.Float64() < w.pLive {
-			w.nextOff++
-			w.live[k] = w.nextOff
+			w.live[k] = w.newOff()
 		}
 	}
 	o, ok := w.live[k]
@@ -198,12 +207,10 @@ func (t *tester) genBuffer(w *world, size int, maxSoFar *int, ident string) *buf
 		cur, live := w.isLive(k)
 		var e ent
 		if !live {
-			w.nextOff++
-			e = ent{kAdd, w.nextOff}
+			e = ent{kAdd, w.newOff()}
 			w.live[k] = e.off
 		} else if r.IntN(2) == 0 {
-			w.nextOff++
-			e = ent{kUpd, w.nextOff}
+			e = ent{kUpd, w.newOff()}
 			w.live[k] = e.off
 		} else {
 			e = ent{kDel, cur}
@@ -482,6 +489,10 @@ func (t *tester) one(ci int) {
 		total += sizes[i]
 	}
 	w := &world{r: r, live: map[string]uint64{}, known: map[string]bool{}, pLive: []float64{0, 0.3, 0.7, 1}[r.IntN(4)]}
+	w.wide = ci%3 == 1
+	if w.wide {
+		rep.Count("cases_with_40_bit_offsets", 1)
+	}
 	switch r.IntN(4) {
 	case 0:
 		w.univ = max(4, total/2) // dense: many keys in several buffers
